@@ -1,7 +1,7 @@
 (** C05 — grid application is exactly the per-location method, serial or parallel.
     Property theorems only (model: Model/Grid.v, tied to _debiaser.py by correspondence K8). *)
 From Coq Require Import List Bool Arith Permutation.
-From IV Require Import Grid Grid_proofs Grid_corollaries.
+From IV Require Import Grid Grid_proofs Grid_corollaries Grid_more.
 Import ListNotations.
 
 (** for ALL grid shapes X x Y (1xN, Nx1 included), all time lengths (obs / cm_hist / cm_future
@@ -31,6 +31,27 @@ Theorem C05_parallel_eq_serial : forall (V : Type) (nan : V) failsafe f T X Y ob
   apply_parallel V nan failsafe f T X Y obs hist fut sched = apply_serial V nan failsafe f T X Y obs hist fut.
 Proof. exact parallel_eq_serial. Qed.
 Print Assumptions C05_parallel_eq_serial.
+
+(** inputs that differ in ONE cell (all three series may differ there) give outputs that differ at most in
+    that cell, for every grid shape and with or without failsafe *)
+Theorem C05_single_cell_change : forall (V : Type) (nan : V) f T X Y obs hist fut obs' hist' fut' i0 j0 b b' failsafe,
+  (forall i j, i < X -> j < Y -> (i, j) <> (i0, j0) ->
+     cell V obs i j = cell V obs' i j /\ cell V hist i j = cell V hist' i j /\ cell V fut i j = cell V fut' i j) ->
+  apply_serial V nan failsafe f T X Y obs hist fut = Some b ->
+  apply_serial V nan failsafe f T X Y obs' hist' fut' = Some b' ->
+  forall i j, i < X -> j < Y -> (i, j) <> (i0, j0) -> ocell V b i j = ocell V b' i j.
+Proof. exact single_cell_change. Qed.
+Print Assumptions C05_single_cell_change.
+
+(** when no location fails, the failsafe flag does not change the result *)
+Theorem C05_failsafe_flag_irrelevant : forall (V : Type) (nan : V) f T X Y obs hist fut,
+  returns_length V f T -> (forall i j, i < X -> j < Y -> ~ fails_at V f obs hist fut i j) ->
+  exists b b', apply_serial V nan true f T X Y obs hist fut = Some b /\
+               apply_serial V nan false f T X Y obs hist fut = Some b' /\
+               dims V b X Y /\ dims V b' X Y /\
+               forall i j, i < X -> j < Y -> ocell V b i j = ocell V b' i j.
+Proof. exact failsafe_flag_irrelevant. Qed.
+Print Assumptions C05_failsafe_flag_irrelevant.
 
 (** non-vacuity: a 2 x 3 grid with different time lengths, parallel completion in reverse order *)
 Example C05_nonvacuous :
